@@ -846,8 +846,16 @@ fn gen_case(prop: &str, rng: &mut Rng, _thorough: bool) -> Vec<String> {
         if r < 50 {
             let cx = gen_cx(rng);
             gen_h2_case(rng, Some(&cx), true)
-        } else if r < 82 {
+        } else if r < 80 {
             gen_edit_case(rng)
+        } else if r < 86 {
+            // HTTP/1.1 requests (some chunked with trailers) through the real parser
+            let mut b = vec![];
+            for _ in 0..rng.range(1, 2) {
+                h1_valid_request(rng, &mut b);
+            }
+            let cuts = gen_cuts(rng, b.len());
+            vec!["new".into(), op_h1(&b, &cuts)]
         } else {
             gen_resp_case(rng)
         }
